@@ -503,6 +503,10 @@ class Interp:
         if k == 'tuple':
             return Agg([self.zst(f) for f in t['fields']])
         if k == 'closure':
+            # the captured (all zero-sized) upvars are the fields of the last generic argument, a tuple
+            ups = [a['ty'] for a in t.get('args', []) if 'ty' in a]
+            if ups and self.p.tys[ups[-1]]['kind'] == 'tuple':
+                return Agg([self.zst(f) for f in self.p.tys[ups[-1]]['fields']])
             return Agg([])
         if k == 'array':
             return Agg([self.zst(t['elem']) for _ in range(t['len'] or 0)])
@@ -1091,6 +1095,21 @@ class Interp:
             return self.int_wrap(v, tt)
         if sk in ('ref', 'ptr', 'fnptr') and tk in ('ref', 'ptr', 'fnptr'):
             return v
+        if sk == 'adt' and tk in ('ptr', 'ref'):
+            # a pointer wrapper (NonNull, Unique, Box without allocator data): the single non-ZST field, recursively
+            w = v
+            while type(w) is Agg:
+                nz = [x for x in w.f if not (type(x) is Agg and not x.f)]
+                if len(nz) != 1:
+                    break
+                w = nz[0]
+            if type(w) in (Ptr, NullPtr):
+                return w
+        if sk in ('ptr', 'ref') and tk == 'int':
+            # the address of a pointer is not modelled; alignment / null checks get an aligned non-null value
+            if type(v) is NullPtr:
+                return v.addr
+            return 0x10000 + (id(v.c) % 0x1000000) * 4096
         if sk == 'adt' and tk == 'adt' and st['size'] == tt['size']:
             # wrappers with one non-ZST field on both sides (ManuallyDrop, MaybeUninit, newtypes)
             return v
@@ -1271,7 +1290,11 @@ class Interp:
             if t['adt'] == 'enum':
                 return Enum(variant, vals)
             if t['adt'] == 'union':
-                return Agg(vals)
+                # one slot per union field; only the active one is initialised
+                fs = [UNINIT] * len(t['variants'][0]['fields'])
+                act = a[4] if len(a) > 4 and isinstance(a[4], int) else 0
+                fs[act] = vals[0] if vals else UNINIT
+                return Agg(fs)
             return Agg(vals)
         if k == 'RawPtr':
             data, meta = vals
@@ -1445,6 +1468,14 @@ class Interp:
                 elif tk == 'SwitchInt':
                     v = self.eval_operand(frame, td['discr'])
                     tg = td['targets']
+                    if '_signed_done' not in tg:
+                        # branch values are bit patterns: give them the sign of the scrutinee's type
+                        tg['_signed_done'] = True
+                        stid = self.operand_ty(frame, td['discr'])
+                        st = self.p.tys[stid] if stid is not None else {'kind': 'bool'}
+                        if st['kind'] == 'int' and st.get('signed'):
+                            half, full = 1 << (st['bits'] - 1), 1 << st['bits']
+                            tg['branches'] = [[(val - full if val >= half else val), bb] for val, bb in tg['branches']]
                     if is_sym(v):
                         nxt = None
                         isb = sx.is_bool(v)
